@@ -147,7 +147,7 @@ fn c06(c: &mut Check) {
 
 fn c07(c: &mut Check) {
     let n = c.tier.pick(1200, 50000);
-    run_e1(c, "exhaustive-gc-enumeration", n, "C07", &[], || gen::case(&COLLECTING_PLANS, Mix { nursery_gc: false, gc_weight: 10, finalizers: true, ..Mix::BASIC }, "C07", 100), |v| {
+    run_e1(c, "exhaustive-gc-enumeration", n, "C07", &[], || gen::case(&COLLECTING_PLANS, Mix { nursery_gc: false, gc_weight: 10, finalizers: true, dense: 6, ..Mix::BASIC }, "C07", 100), |v| {
         (cv(v, "c07_nontrivial") > 0, labels_common(v))
     });
 }
